@@ -5,11 +5,11 @@
  "bound": "generated test files through Example.run_inline: 23 statement layouts x 5 headers x 21 argument edits x 6 flag sets, LF/CRLF, formatter-clean and not clean (C03); 9 pyproject [tool.black] variants x 5 shapes x values around the line limit (C20); Is()/f-string/star-expression/nested-snapshot name inside list/tuple/dict/call at every position (C10); containers of hand-written element expressions, depth<=2, width<=4, random edit scripts + all sequence pairs over 3 symbols up to length 3 (C11)",
  "input": {
   "prop": "C03",
-  "name": "ops/plain/crlf",
-  "flags": "fix",
-  "source": "from inline_snapshot import snapshot\ndef test_a():\n    x = \"\u00e4\"; assert 6 in snapshot([1, 5]); assert 30 <= snapshot(10); s = snapshot({\"a\": 1}); assert s[\"b\"] == 2\n"
+  "name": "nonascii_left/future",
+  "flags": "create,fix",
+  "source": "from __future__ import annotations\nfrom inline_snapshot import snapshot\ndef test_a():\n    x = \"\u00e4\u00f6\u00fc\u20ac\"; assert \"\u00e4\ud83d\ude00\" == snapshot(\"\u00f6\")\n"
  },
- "detail": "[C03 ops/plain/crlf flags=fix] [other] rewritten file is not valid Python: invalid syntax (test_something.py, line 3)\n--- before ---\nfrom inline_snapshot import snapshot\r\ndef test_a():\r\n    x = \"\u00e4\"; assert 6 in snapshot([1, 5]); assert 30 <= snapshot(10); s = snapshot({\"a\": 1}); assert s[\"b\"] == 2\r\n\n--- after ---\nfrom inline_snapshot import snapshot\r\ndef test_a():\r\n    x = \"\u00e4\"; assert 6 in snapshot([1, 5, 6]); assert 30 <= snapshot(130; s = snapshot({\"a\": 1}); assert s[\"b\"] == 2\r\n"
+ "detail": "[C03 nonascii_left/future flags=create,fix] text outside the parentheses of the changed snapshot() calls differs at masked offset 129: before \u2026' x = \"\u00e4\u00f6\u00fc\u20ac\"; assert \"\u00e4\ud83d\ude00\" == snapshot(\\x00)\\n'  after \u2026' x = \"\u00e4\u00f6\u00fc\u20ac\"; assert \"\u00e4\ud83d\ude00\" == snapshot(\\x00)\\n\"\u00e4\ud83d\ude00\"'\n--- before ---\nfrom __future__ import annotations\nfrom inline_snapshot import snapshot\ndef test_a():\n    x = \"\u00e4\u00f6\u00fc\u20ac\"; assert \"\u00e4\ud83d\ude00\" == snapshot(\"\u00f6\")\n\n--- after ---\nfrom __future__ import annotations\nfrom inline_snapshot import snapshot\ndef test_a():\n    x = \"\u00e4\u00f6\u00fc\u20ac\"; assert \"\u00e4\ud83d\ude00\" == snapshot(\"\u00f6\")\n\"\u00e4\ud83d\ude00\""
 }
 """
 
@@ -62,8 +62,8 @@ def rerun_identity(src):
         inline_snapshot.snapshot = real
 
 import ast
-SRC = 'from inline_snapshot import snapshot\r\ndef test_a():\r\n    x = "ä"; assert 6 in snapshot([1, 5]); assert 30 <= snapshot(10); s = snapshot({"a": 1}); assert s["b"] == 2\r\n'
-FLAGS = 'fix'
+SRC = 'from __future__ import annotations\nfrom inline_snapshot import snapshot\ndef test_a():\n    x = "äöü€"; assert "ä😀" == snapshot("ö")\n'
+FLAGS = 'create,fix'
 CWD_FILES = {}
 files = {'test_something.py': SRC}
 files.update(CWD_FILES)
@@ -71,9 +71,8 @@ after, raised = run_inline(files, FLAGS, cwd_files=CWD_FILES)
 new = after['test_something.py']
 print(new)
 compile(new.replace('\r\n', '\n'), 'test_something.py', 'exec')  # C03: still valid Python
-assert '\r\n' in new or new == SRC, 'F8: CRLF line endings were replaced by LF'
 # the detail text of the failure names the violated oracle; the generic checks that can be replayed stand-alone follow
-EXPECT_GREEN = False
+EXPECT_GREEN = True
 if EXPECT_GREEN:
     rerun_identity(new)
 import black
@@ -95,13 +94,13 @@ def masked(src, changed):
             out.append(src[pos:a] + chr(0))
             pos = b
     return ''.join(out) + src[pos:]
-CHANGED = [0, 1]
+CHANGED = [0]
 if black.format_str(lf, mode=mode) != lf:  # not formatter-clean: byte for byte outside the changed arguments
     assert masked(SRC, CHANGED) == masked(new, CHANGED), 'C03: text outside the parentheses of the changed snapshot() calls differs'
 # finally the exact oracle of the stand-in (needs /verif on sys.path)
 sys.path.insert(0, '/verif')
 from bounded import b_layout
-CASE = {'prop': 'C03', 'name': 'ops/plain/crlf', 'src': 'from inline_snapshot import snapshot\ndef test_a():\n    x = "ä"; assert 6 in snapshot([1, 5]); assert 30 <= snapshot(10); s = snapshot({"a": 1}); assert s["b"] == 2\n', 'flags': 'fix', 'changed': [0, 1], 'crlf': True, 'make_clean': False, 'mode_opts': {}, 'expect_green': False}
+CASE = {'prop': 'C03', 'name': 'nonascii_left/future', 'src': 'from __future__ import annotations\nfrom inline_snapshot import snapshot\ndef test_a():\n    x = "äöü€"; assert "ä😀" == snapshot("ö")\n', 'flags': 'create,fix', 'changed': [0], 'crlf': False, 'make_clean': False, 'mode_opts': {}, 'expect_green': True}
 out = b_layout.eval_case(CASE)
 assert out['status'] != 'fail', out['detail']
 
